@@ -69,6 +69,9 @@ func ruleHandleEvent(c *Ctx) {
 			return []Ev{{Kind: "apply:delete", Stop: true}}
 		}
 		if _, ok := isCallTo(in, subEvent); ok {
+			if _, isGo := in.(*ssa.Go); isGo {
+				return []Ev{{Kind: "go"}, {Kind: "fanout"}}
+			}
 			return []Ev{{Kind: "fanout"}}
 		}
 		if call, ok := in.(ssa.CallInstruction); ok {
